@@ -30,7 +30,9 @@ CHECKS = {
         "well-formedness are checked by TLC). For every Unicode scalar value (thorough: all 1,112,064; quick: a boundary-dense subset "
         "of ~8.5k) the output of Unicode::ToUTF for three widths and of JSON::Parse on the upper-hex, lower-hex and embedded escape "
         "(surrogate pairs above U+FFFF) is recorded from the real code (exact-size buffers, ASan) and each event is evaluated by TLC "
-        "against the specification. The thorough tier is exhaustive over the property's quantifier.",
+        "against the specification. The thorough tier is exhaustive over the property's quantifier. The encoders and the surrogate "
+        "combination are also transcribed with the code's bit operations (QUnicodeImpl): TLC checks them against QUnicode at every "
+        "boundary and plane, rejects five seeded / plausible variants, and the oracle reports drift of the transcription.",
    note="TLC as batch oracle (one initial state per event); JSON decodings that are unit-for-unit identical to the direct encoding "
         "are logged compressed, the direct encoding itself is always compared by TLC.",
    technique="TLA+ specification of UTF-8/16/32 and escape forms; TLC batch oracle over events recorded from Unicode::ToUTF and JSON::Parse",
